@@ -10,30 +10,32 @@ RESULT = object()
 
 
 def _levels(kind: str, a0: int, b0: int, s0: int, i0: int, d1: int, a1: int, b1: int, i1: int,
-            d2: int, a2: int, b2: int) -> Tuple[Level, ...]:
+            d2: int, a2: int, b2: int, fg: bool = False) -> Tuple[Level, ...]:
+    """fg: every level that defines the member puts a foreign functools.wraps decorator on top of its contracts."""
     inv0 = ("CALL",) * i0 if kind != "func" else ()
-    levels = [Level(True, pre=a0, post=b0, snaps=s0 if b0 else 0, inv=inv0)]
+    levels = [Level(True, pre=a0, post=b0, snaps=s0 if b0 else 0, inv=inv0, foreign=fg)]
     if kind != "func" and d1:
         if d1 == 1:
             levels.append(Level(False, inv=("CALL",) * i1))
         else:
-            levels.append(Level(True, pre=a1, post=b1, inv=("CALL",) * i1))
+            levels.append(Level(True, pre=a1, post=b1, inv=("CALL",) * i1, foreign=fg))
         if d2:
             if d2 == 1:
                 levels.append(Level(False))
             else:
-                levels.append(Level(True, pre=a2, post=b2))
+                levels.append(Level(True, pre=a2, post=b2, foreign=fg))
     return tuple(levels)
 
 
 def run_order(kind: str, is_async: bool, mode: str, a0: int, b0: int, s0: int, i0: int, d1: int, a1: int, b1: int,
               i1: int, d2: int, a2: int, b2: int,
               p0: bool, p1: bool, p2: bool, p3: bool, p4: bool, q0: bool, q1: bool, q2: bool, q3: bool,
-              v0: bool, v1: bool, w0: bool, w1: bool) -> Tuple[bool, bool]:
+              v0: bool, v1: bool, w0: bool, w1: bool, fg: bool = False) -> Tuple[bool, bool]:
+    fg = True if fg else False
     a0, b0, s0, i0 = conc(a0, 0, 2), conc(b0, 0, 2), conc(s0, 0, 1), conc(i0, 0, 1)
     d1, a1, b1, i1 = conc(d1, 0, 2), conc(a1, 0, 2), conc(b1, 0, 1), conc(i1, 0, 1)
     d2, a2, b2 = conc(d2, 0, 2), conc(a2, 0, 1), conc(b2, 0, 1)
-    prog = Prog(kind=kind, is_async=is_async, levels=_levels(kind, a0, b0, s0, i0, d1, a1, b1, i1, d2, a2, b2))
+    prog = Prog(kind=kind, is_async=is_async, levels=_levels(kind, a0, b0, s0, i0, d1, a1, b1, i1, d2, a2, b2, fg))
     eff = effective(prog)
     if eff.creation_error_at is not None:
         return True, False
@@ -148,11 +150,12 @@ def run_shared_predicate(kind_i: int, tp: bool, tq: bool) -> Tuple[bool, bool]:
 
 
 ALL = ["a0", "b0", "s0", "i0", "d1", "a1", "b1", "i1", "d2", "a2", "b2", "p0", "p1", "p2", "p3", "p4",
-       "q0", "q1", "q2", "q3", "v0", "v1", "w0", "w1"]
+       "q0", "q1", "q2", "q3", "v0", "v1", "w0", "w1", "fg"]
 
 
 def _mk(kind: str, is_async: bool, mode: str, fixed: Dict[str, Any], params: List[Any]):  # type: ignore
     defaults = {n: (0 if n[0] in "absid" else True) for n in ALL}
+    defaults["fg"] = False
     defaults.update(fixed)
     return bind(run_order, (kind, is_async, mode), ALL, defaults, [p.name for p in params])
 
@@ -191,6 +194,8 @@ def harnesses(tier: str) -> List[H]:
                     elif d1 == 1:
                         params += [I("i1", 0, 1)]
                     params += pre_bits + post_bits + inv_bits
+                    if kind == "method" and d1 == 2 and not is_async:
+                        params += [B("fg")]  # with / without a foreign functools.wraps decorator above every contract stack
                     out.append(H("{}_d{}{}".format(base, d1, "a%d" % a1 if d1 == 2 else ""),
                                  _mk(kind, is_async, mode, fixed, params), params, tiers=(tier,),
                                  timeout=400,
@@ -208,7 +213,7 @@ def harnesses(tier: str) -> List[H]:
                         params += [I("i1", 0, 1)]
                     if d2 == 2:
                         params += [I("a2", 0, 1), I("b2", 0, 1)]
-                    params += pre_bits + [B("p4")] + post_bits + [B("q3")] + inv_bits
+                    params += pre_bits + [B("p4")] + post_bits + [B("q3")] + inv_bits + [B("fg")]
                     out.append(H("{}_d{}{}".format(base, d1, d2), _mk(kind, is_async, mode, fixed, params), params,
                                  tiers=(tier,), timeout=900,
                                  family="kind={}: 3-level chain, level1 shape {}, level2 shape {} (0 absent, 1 not "
